@@ -385,3 +385,52 @@ def exotic_ints(v):
         pass
     return out
 
+
+
+def protocol_sequences(rng, count):
+    """Message lists that mean something together - the eight quarter frames of a time code (in order, backwards, any
+    values: real devices send nonsense too), (N)RPN and bank-select controller groups, 14 bit controller pairs, song
+    position + continue, all-notes-off sweeps, the same status over and over.  A parser has no business caring."""
+    out = []
+    for i in range(count):
+        kind = i % 8
+        if kind == 0:
+            vals = [rng.randrange(16) for _ in range(8)]
+            if i % 16 == 0:
+                vals = [15] * 8
+            order = list(range(8)) if i % 3 else list(reversed(range(8)))
+            seq = [('quarter_frame', {'frame_type': ft, 'frame_value': vals[ft]}) for ft in order]
+            if i % 5 == 0:
+                seq = seq + seq[:rng.randrange(1, 8)] + [('quarter_frame', {'frame_type': 7, 'frame_value': rng.randrange(8, 16)})]
+        elif kind == 1:
+            ch = rng.randrange(16)
+            a, b = rng.choice(((101, 100), (99, 98)))
+            seq = [('control_change', {'channel': ch, 'control': a, 'value': rng.choice((0, 127, rng.randrange(128)))}),
+                   ('control_change', {'channel': ch, 'control': b, 'value': rng.choice((0, 127, rng.randrange(128)))}),
+                   ('control_change', {'channel': ch, 'control': 6, 'value': rng.randrange(128)}),
+                   ('control_change', {'channel': ch, 'control': 38, 'value': rng.randrange(128)}),
+                   ('control_change', {'channel': ch, 'control': a, 'value': 127}),
+                   ('control_change', {'channel': ch, 'control': b, 'value': 127})]
+        elif kind == 2:
+            ch = rng.randrange(16)
+            seq = [('control_change', {'channel': ch, 'control': 0, 'value': rng.randrange(128)}),
+                   ('control_change', {'channel': ch, 'control': 32, 'value': rng.randrange(128)}),
+                   ('program_change', {'channel': ch, 'program': rng.randrange(128)})] * rng.randrange(1, 4)
+        elif kind == 3:
+            ch, c = rng.randrange(16), rng.randrange(32)
+            seq = [('control_change', {'channel': ch, 'control': c + (32 if j % 2 else 0), 'value': rng.randrange(128)})
+                   for j in range(rng.randrange(2, 12))]
+        elif kind == 4:
+            seq = [('songpos', {'pos': rng.choice((0, 16383, rng.randrange(16384)))}), ('continue', {}), ('clock', {}), ('clock', {}),
+                   ('stop', {}), ('song_select', {'song': rng.randrange(128)}), ('start', {})]
+        elif kind == 5:
+            seq = [('control_change', {'channel': ch, 'control': c, 'value': 0}) for ch in range(16) for c in (120, 121, 123)]
+        elif kind == 6:
+            t = rng.choice(('active_sensing', 'clock', 'tune_request', 'reset'))
+            seq = [(t, {})] * rng.randrange(2, 40)
+        else:
+            ch, note = rng.randrange(16), rng.randrange(128)
+            seq = [('note_on', {'channel': ch, 'note': note, 'velocity': v}) for v in (64, 0, 64, 0, 127, 0)] + \
+                  [('note_off', {'channel': ch, 'note': note, 'velocity': 0})] * 2
+        out.append(seq)
+    return out
